@@ -21,7 +21,7 @@ RULE = ("streams of 1-8 frames. Beast: types '1' Mode-AC, '2' short, '3' long, '
         "DF/length admission; after every read the output so far is a prefix of it, contains every admissible frame whose successor start has been "
         "delivered, and equals it at the end; both Beast readers. NetSource.handle_messages with a stub pipe: everything sent + local buffers == long "
         "DF17/18 resp. DF20/21 messages handed in, in order, once. non-trivial = a cut strictly inside a frame (Beast: adjacent to / inside an escaped pair)"
-        ' Also: reader output fed to NetSource under several segmentations with frames repeated back to back (leg pipeline), TcpClient.run() itself on a scripted socket with receive timeouts between pieces, reads of at most 4096 bytes and streams of up to ~20 KiB (leg run_loop), stretches of 200-12000 Comm-B messages and duplicates with equal time stamps in the NetSource / RtlSdrSource leg, a libFuzzer campaign in the thorough tier.')
+        ' Also: reader output fed to NetSource under several segmentations with frames repeated back to back (leg pipeline), TcpClient.run() itself on a scripted socket with receive timeouts between pieces, reads of at most 4096 bytes and streams of up to ~20 KiB (leg run_loop), stretches of 200-12000 Comm-B messages and duplicates with equal time stamps and time stamps that start at 0 / 0.0, wrap at midnight, run backwards or are arbitrary in the NetSource / RtlSdrSource leg, a libFuzzer campaign in the thorough tier.')
 ASSUMPTIONS = ["wall-clock timestamps attached by the Beast/raw readers are ignored; Skysense timestamps are compared with the record's own field",
                "a Beast frame counts as completely received once the next <esc> and its type byte have been delivered",
                "the zmq socket is not involved: the harness owns the chunking"]
@@ -264,7 +264,25 @@ def s_net(draw):
     dup = draw(gen.uint(0, 3)) == 0
     bulk = draw(st.sampled_from([0] * 12 + [200, 600, 1500] * 2 + [12000]))
     return {"batches": batches, "hc": draw(gen.hexcase), "source": draw(st.sampled_from(["net", "net", "rtl"])), "dup": dup, "same_ts": draw(st.booleans()),
-            "bulk": bulk, "bulk_at": draw(gen.uint(0, 7)), "ctx_bulkseed": draw(gen.ubits(32))}
+            "bulk": bulk, "bulk_at": draw(gen.uint(0, 7)), "ctx_bulkseed": draw(gen.ubits(32)),
+            # the time stamps the reader attached: wall clock (increasing), or Skysense seconds of the UTC day: starting at 0 / 0.0, wrapping at midnight;
+            # a clock stepped backwards; arbitrary.  The source forwards in the order handed in, whatever the stamps say.
+            "ts_mode": draw(st.sampled_from(["inc", "inc", "inc", "dec", "rand", "from0", "from0f", "midnight"]))}
+
+
+def stamp(case, t):
+    mode = case.get("ts_mode", "inc")
+    if mode == "dec":
+        return 10 ** 6 - t
+    if mode == "rand":
+        return gen.spread(case["ctx_bulkseed"] + t, 20) / 8.0
+    if mode == "from0":
+        return t - 1
+    if mode == "from0f":
+        return (t - 1) * 0.5
+    if mode == "midnight":
+        return (86395 + t * 3) % 86400 + (0.25 if t % 2 else 0.0)
+    return t
 
 
 def chk_net(case, note):
@@ -292,11 +310,12 @@ def chk_net(case, note):
             if not (case.get("same_ts") and m == prev):  # one read may stamp several frames with the same time
                 t += 1
             prev = m
-            msgs.append([m, t])
+            t_ = stamp(case, t)
+            msgs.append([m, t_])
             if len(m) == 28 and (int(m[:2], 16) >> 3) in (17, 18):
-                fed_a.append((m, t))
+                fed_a.append((m, t_))
             elif len(m) == 28 and (int(m[:2], 16) >> 3) in (20, 21):
-                fed_c.append((m, t))
+                fed_c.append((m, t_))
         r = call(src.handle_messages, msgs)
         if r[0] != "ok":
             return "%s.handle_messages(%r) raised %r" % (type(src).__name__, msgs, r[1:])
@@ -320,6 +339,7 @@ def chk_net(case, note):
         note.cls("bulk-commb-%d" % case["bulk"])
     if case.get("dup"):
         note.cls("consecutive-duplicates")
+    note.cls("stamps-" + case.get("ts_mode", "inc"))
     note.nt(len(fed_a) > 2 and len(fed_c) > 0)
     return None
 
